@@ -1,1 +1,445 @@
-/-! C04 — property theorems (none yet). -/
+import Req.Lemmas.H1Chunk
+/-!
+C04 — HTTP/1.1 response parsing and framing.
+
+The property is relational (the fork's reader ≡ Go's reference reader).  It is decided by ONE
+model (`Req.H1.parseResponse`) that the reference lane ties to BOTH implementations on every
+run; the theorems below are what makes that agreement meaningful:
+
+* `parse_deterministic_end` — where a complete message ends does not depend on what follows
+  it: bytes of one response are never attributed to another.
+* `head_deterministic_end` — the same for status line + header block alone (every framing).
+* `framing_*`, `te_and_cl` — the framing decision: which of {no body, declared length, chunked,
+  until close} is chosen, exclusively, and that chunked overrides and removes Content-Length.
+* `reject_*` — malformed classes of the grammar map to rejection.
+* `hex_roundtrip`, `chunked_roundtrip` — the chunked reader inverts the chunked writer for every
+  split of the body into chunks and whatever follows the body.
+-/
+namespace Req.Props.C04
+open Req.Proto Req.H1
+
+/-! ### the end of a message is determined by the message -/
+
+/-- Status line + header block + framing decision read from `s` are read identically from any
+extension of `s`, leaving the extension in the stream. -/
+theorem head_deterministic_end {isHead : Bool} {s r : Bytes} {m : Msg}
+    (h : parseHead isHead s = some (m, r)) (t : Bytes) :
+    parseHead isHead (s ++ t) = some (m, r ++ t) := by
+  unfold parseHead at h ⊢
+  cases hl : readLine s with
+  | none => simp [hl] at h
+  | some p =>
+    obtain ⟨line, r1⟩ := p
+    simp only [hl] at h
+    cases hs : parseStatusLine line with
+    | none => simp [hs] at h
+    | some sl =>
+      simp only [hs] at h
+      cases hm : readMIMEHeader r1 with
+      | none => simp [hm] at h
+      | some q =>
+        obtain ⟨hd, r2⟩ := q
+        simp only [hm] at h
+        have hr1 : r1 ≠ [] := by
+          intro hnil; subst hnil; simp [readMIMEHeader] at hm
+        rw [readLine_stable_of_rest hl hr1 t]
+        simp only [hs, readMIMEHeader_append hm t]
+        cases ht : readTransfer isHead sl (fixPragmaCacheControl hd) with
+        | none => simp [ht] at h
+        | some m' =>
+          simp only [ht, Option.some.injEq, Prod.mk.injEq] at h ⊢
+          obtain ⟨rfl, rfl⟩ := h
+          exact ⟨rfl, rfl⟩
+
+/-- A body that was read to its end (`io.EOF`) under a framing other than "until close" is read
+identically from any extension of the stream. -/
+theorem body_deterministic_end {B : Nat} {m : Msg} {s : Bytes}
+    (hok : (readBody B m s).ok = true) (hf : m.framing ≠ .untilClose) (t : Bytes) :
+    readBody B m (s ++ t) = { readBody B m s with rest := (readBody B m s).rest ++ t } := by
+  unfold readBody at hok ⊢
+  cases hfr : m.framing with
+  | none => simp
+  | untilClose => exact absurd hfr hf
+  | length n =>
+    simp only [hfr] at hok ⊢
+    split at hok
+    · next hle =>
+      have hle' : n ≤ s.length + t.length := by omega
+      simp [hle, hle', List.take_append_of_le_length hle, List.drop_append_of_le_length hle]
+    · simp at hok
+  | chunked =>
+    simp only [hfr] at hok ⊢
+    cases hd : decodeChunked B s with
+    | mk d e =>
+      cases e with
+      | none => simp [hd] at hok
+      | some r =>
+        simp only [hd] at hok ⊢
+        have hd' : decodeChunked B (s ++ t) = (d, some (r ++ t)) := by
+          unfold decodeChunked at hd ⊢
+          exact chunkLoop_append hd t _ (by simp)
+        simp only [hd']
+        cases htr : readTrailer B (declMap m.trailerDecl) r with
+        | none => simp [htr] at hok
+        | some p =>
+          obtain ⟨tr, rest⟩ := p
+          simp [readTrailer_append htr t]
+
+/-- **parse_deterministic_end.** If the stream `s` holds a complete response (accepted, body
+read to EOF, framing not close-delimited) with `rest` left over, then on `s ++ t` the reader
+produces the same response and leaves `rest ++ t`: what follows a message never changes how the
+message is read, and none of `t` is attributed to it. -/
+theorem parse_deterministic_end {isHead : Bool} {B : Nat} {s : Bytes} {m : Msg} {b : BodyRes}
+    (h : parseResponse isHead B s = .resp m b) (hok : b.ok = true)
+    (hf : m.framing ≠ .untilClose) (t : Bytes) :
+    parseResponse isHead B (s ++ t) = .resp m { b with rest := b.rest ++ t } := by
+  unfold parseResponse at h ⊢
+  cases hh : parseHead isHead s with
+  | none => simp [hh] at h
+  | some p =>
+    obtain ⟨m', r⟩ := p
+    simp only [hh, Outcome.resp.injEq] at h
+    obtain ⟨rfl, rfl⟩ := h
+    simp only [head_deterministic_end hh t]
+    rw [body_deterministic_end hok hf t]
+
+/-- Close-delimited bodies are the one framing whose end is the end of the connection: the
+body is everything that follows the header block. -/
+theorem until_close_takes_all {B : Nat} {m : Msg} (s : Bytes) (hf : m.framing = .untilClose) :
+    (readBody B m s).data = s ∧ (readBody B m s).rest = [] ∧ (readBody B m s).ok = true := by
+  simp [readBody, hf]
+
+example : parseResponse false 4096
+    [72,84,84,80,47,49,46,49,32,50,48,48,32,79,75,13,10,  -- HTTP/1.1 200 OK
+     67,111,110,116,101,110,116,45,76,101,110,103,116,104,58,32,50,13,10,13,10,  -- Content-Length: 2
+     104,105, 78,69,88,84] =                                -- "hi" then "NEXT"
+    .resp ⟨⟨[72,84,84,80,47,49,46,49], [50,48,48,32,79,75], 200, 1, 1⟩,
+           [(kContentLength, [[50]])], 2, false, false, [], .length 2⟩
+          ⟨[104,105], true, [], [78,69,88,84]⟩ := by decide
+
+/-! ### the framing decision -/
+
+/-- What `fixLength` returns: 0 for HEAD and for statuses without a body, -1 for chunked
+otherwise, else the declared length or -1. -/
+theorem fixLength_facts {code : Nat} {isHead chunked : Bool} {h2 h3 : HeaderMap} {realLength : Int}
+    (hfl : fixLength code isHead h2 chunked = some (realLength, h3)) :
+    (isHead = true → realLength = 0) ∧
+    (bodyAllowedForStatus code = false → realLength = 0) ∧
+    (chunked = true → isHead = false → bodyAllowedForStatus code = true → realLength = -1) ∧
+    (-1 ≤ realLength) := by
+  unfold fixLength at hfl
+  simp only at hfl
+  split at hfl
+  · simp at hfl
+  · split at hfl
+    · simp at hfl
+    · next n? hp =>
+      by_cases hH : isHead = true
+      · simp [hH] at hfl; simp [hH, ← hfl.1]
+      · have hH' : isHead = false := by simpa using hH
+        simp only [hH', Bool.false_eq_true, if_false] at hfl
+        by_cases h1 : code / 100 = 1
+        · simp [h1] at hfl
+          have : bodyAllowedForStatus code = false := by
+            simp [bodyAllowedForStatus]; omega
+          simp [hH', this, ← hfl.1]
+        · simp only [h1, if_false] at hfl
+          by_cases h2 : code = 204 ∨ code = 304
+          · simp [h2] at hfl
+            have : bodyAllowedForStatus code = false := by
+              simp [bodyAllowedForStatus]; omega
+            simp [hH', this, ← hfl.1]
+          · simp only [h2, if_false] at hfl
+            have hba : bodyAllowedForStatus code = true := by
+              simp [bodyAllowedForStatus]; omega
+            by_cases hc : chunked = true
+            · simp [hc] at hfl; simp [hH', hba, ← hfl.1]
+            · have hc' : chunked = false := by simpa using hc
+              simp only [hc', Bool.false_eq_true, if_false] at hfl
+              cases n? with
+              | none => simp at hfl; simp [hH', hba, hc', ← hfl.1]
+              | some n =>
+                simp at hfl
+                simp [hH', hba, hc', ← hfl.1]
+
+/-- The framing is one of four and `readTransfer` picks it by this table (so exactly one
+applies): chunked iff a valid chunked Transfer-Encoding was seen and a body is allowed; else a
+declared length; else until close. -/
+theorem framing_table {isHead : Bool} {sl : StatusLine} {h0 : HeaderMap} {m : Msg}
+    (h : readTransfer isHead sl h0 = some m) :
+    (m.framing = .chunked ↔ (m.teChunked = true ∧ isHead = false ∧ bodyAllowedForStatus sl.code = true)) ∧
+    (m.framing = .untilClose → m.teChunked = false ∧ m.close = true ∧ isHead = false ∧
+        bodyAllowedForStatus sl.code = true ∧ m.contentLength = -1) ∧
+    (∀ n, m.framing = .length n → m.teChunked = false ∧ 0 < n ∧ m.contentLength = n ∧ isHead = false) := by
+  unfold readTransfer at h
+  simp only at h
+  split at h
+  · simp at h
+  · next chunked h2 hte =>
+    split at h
+    · simp at h
+    · next realLength h3 hfl =>
+      split at h
+      · simp at h
+      · next cl hcl =>
+        split at h
+        · simp at h
+        · next tr h4 htr =>
+          simp only [Option.some.injEq] at h
+          subst h
+          have hfix := fixLength_facts hfl
+          obtain ⟨hfH, hfB, hfC, hfge⟩ := hfix
+          have hclH : isHead = false → cl = realLength := by
+            intro hH; simp [hH] at hcl; exact hcl.symm
+          dsimp only
+          refine ⟨?_, ?_, ?_⟩
+          · -- chunked
+            constructor
+            · intro hfr
+              by_cases hc : chunked = true
+              · simp only [hc, if_true] at hfr
+                split at hfr
+                · simp at hfr
+                · next hcond =>
+                  simp at hcond
+                  exact ⟨hc, hcond.1, hcond.2⟩
+              · have hc' : chunked = false := by simpa using hc
+                simp only [hc', Bool.false_eq_true, if_false] at hfr
+                repeat (split at hfr <;> try simp at hfr)
+            · intro ⟨hc, hH, hba⟩
+              simp [hc, hH, hba]
+          · intro hfr
+            by_cases hc : chunked = true
+            · simp only [hc, if_true] at hfr
+              split at hfr <;> simp at hfr
+            · have hc' : chunked = false := by simpa using hc
+              simp only [hc', Bool.false_eq_true, if_false] at hfr
+              split at hfr
+              · simp at hfr
+              · next hz =>
+                split at hfr
+                · simp at hfr
+                · next hpos =>
+                  split at hfr
+                  · next hclose =>
+                    have hrl : realLength = -1 := by omega
+                    have hH : isHead = false := by
+                      cases hi : isHead with
+                      | false => rfl
+                      | true => have := hfH hi; omega
+                    have hba : bodyAllowedForStatus sl.code = true := by
+                      cases hb : bodyAllowedForStatus sl.code with
+                      | true => rfl
+                      | false => have := hfB hb; omega
+                    refine ⟨hc', ?_, hH, hba, ?_⟩
+                    · rw [hc']; exact hclose
+                    · rw [hclH hH, hrl]
+                  · simp at hfr
+          · intro n hfr
+            by_cases hc : chunked = true
+            · simp only [hc, if_true] at hfr
+              split at hfr <;> simp at hfr
+            · have hc' : chunked = false := by simpa using hc
+              simp only [hc', Bool.false_eq_true, if_false] at hfr
+              split at hfr
+              · simp at hfr
+              · split at hfr
+                · next hpos =>
+                  simp only [Framing.length.injEq] at hfr
+                  have hH : isHead = false := by
+                    cases hi : isHead with
+                    | false => rfl
+                    | true => have := hfH hi; omega
+                  refine ⟨hc', by omega, ?_, hH⟩
+                  rw [hclH hH]; omega
+                · split at hfr <;> simp at hfr
+
+/-- A chunked body comes with `ContentLength = -1`. -/
+theorem chunked_content_length {isHead : Bool} {sl : StatusLine} {h0 : HeaderMap} {m : Msg}
+    (h : readTransfer isHead sl h0 = some m) (hf : m.framing = .chunked) :
+    m.contentLength = -1 := by
+  obtain ⟨hch, _, _⟩ := framing_table h
+  obtain ⟨hte, hH, hba⟩ := hch.mp hf
+  unfold readTransfer at h
+  simp only at h
+  split at h
+  · simp at h
+  · next chunked h2 hte' =>
+    split at h
+    · simp at h
+    · next realLength h3 hfl =>
+      split at h
+      · simp at h
+      · next cl hcl =>
+        split at h
+        · simp at h
+        · next tr h4 htr =>
+          simp only [Option.some.injEq] at h
+          subst h
+          dsimp only at hte ⊢
+          obtain ⟨_, _, hfC, _⟩ := fixLength_facts hfl
+          simp [hH] at hcl
+          rw [← hcl]
+          exact hfC hte hH hba
+
+/-! ### chunked writer / reader round trip -/
+
+/-- **hex_roundtrip.** -/
+theorem hex_roundtrip (n : Nat) (h : n < 2 ^ 64) : parseHexUint (toHex n) = some n :=
+  parseHexUint_toHex n h
+
+/-- **chunked_roundtrip.** For every split of a body into non-empty chunks (each below 2^61
+bytes), every read-buffer size of at least 18 bytes, and whatever follows: the chunked reader
+returns exactly the concatenation of the chunks, ends with io.EOF, and has consumed exactly the
+writer's output (`rest` untouched). -/
+theorem chunked_roundtrip {B : Nat} (hB : 18 ≤ B) (chunks : List Bytes)
+    (hne : ∀ c ∈ chunks, c ≠ []) (hsz : ∀ c ∈ chunks, c.length < 2 ^ 61) (rest : Bytes) :
+    decodeChunked B (encodeChunked chunks ++ rest) = (chunks.flatten, some rest) := by
+  unfold decodeChunked
+  apply chunkLoop_encodeChunked hB chunks hne hsz rest
+  have := encodeChunked_length chunks hne
+  simp
+  omega
+
+/-- The same through `readBody`: chunked framing, no trailers (the final CRLF), followed by
+the bytes of the next message. -/
+theorem chunked_body_roundtrip {B : Nat} (hB : 18 ≤ B) {m : Msg} (hf : m.framing = .chunked)
+    (chunks : List Bytes) (hne : ∀ c ∈ chunks, c ≠ []) (hsz : ∀ c ∈ chunks, c.length < 2 ^ 61)
+    (next : Bytes) :
+    readBody B m (encodeChunked chunks ++ [CR, LF] ++ next) =
+      ⟨chunks.flatten, true, declMap m.trailerDecl, next⟩ := by
+  unfold readBody
+  simp only [hf]
+  have := chunked_roundtrip hB chunks hne hsz ([CR, LF] ++ next)
+  rw [List.append_assoc, this]
+  simp [readTrailer]
+
+example : decodeChunked 4096 (encodeChunked [[104, 101], [108, 108, 111]] ++ [13, 10, 88]) =
+    ([104, 101, 108, 108, 111], some [13, 10, 88]) := by decide
+
+/-! ### Transfer-Encoding and Content-Length together -/
+
+/-- In the chunked branch `fixLength` hands back a header without Content-Length. -/
+theorem fixLength_chunked_header {code : Nat} {h2 h3 : HeaderMap} {rl : Int}
+    (hfl : fixLength code false h2 true = some (rl, h3))
+    (hba : bodyAllowedForStatus code = true) : HeaderMap.get h3 kContentLength = none := by
+  unfold fixLength at hfl
+  simp only at hfl
+  split at hfl
+  · simp at hfl
+  · split at hfl
+    · simp at hfl
+    · simp only [Bool.false_eq_true, if_false] at hfl
+      have h1 : ¬ code / 100 = 1 := by
+        intro h; simp [bodyAllowedForStatus] at hba; omega
+      have h2 : ¬ (code = 204 ∨ code = 304) := by
+        intro h; simp [bodyAllowedForStatus] at hba; omega
+      simp only [h1, h2, if_false, if_true, Option.some.injEq, Prod.mk.injEq] at hfl
+      rw [← hfl.2]
+      exact Req.H1.HeaderMap.get_del_self _ _
+
+/-- **te_and_cl.** A response that is chunked (valid `Transfer-Encoding: chunked` on HTTP/1.1+,
+body allowed, not HEAD): the framing is chunked whatever Content-Length said, the reported
+length is -1 and the Content-Length field is gone from the header. -/
+theorem te_and_cl {sl : StatusLine} {h0 : HeaderMap} {m : Msg}
+    (h : readTransfer false sl h0 = some m) (hte : m.teChunked = true)
+    (hba : bodyAllowedForStatus sl.code = true) :
+    m.framing = .chunked ∧ m.contentLength = -1 ∧ HeaderMap.get m.header kContentLength = none := by
+  have hfr : m.framing = .chunked := (framing_table h).1.mpr ⟨hte, rfl, hba⟩
+  refine ⟨hfr, chunked_content_length h hfr, ?_⟩
+  unfold readTransfer at h
+  simp only at h
+  split at h
+  · simp at h
+  · next chunked h2 hte' =>
+    split at h
+    · simp at h
+    · next realLength h3 hfl =>
+      split at h
+      · simp at h
+      · next cl hcl =>
+        split at h
+        · simp at h
+        · next tr h4 htr =>
+          simp only [Option.some.injEq] at h
+          subst h
+          dsimp only at hte ⊢
+          subst hte
+          have h3n := fixLength_chunked_header hfl hba
+          unfold fixTrailer at htr
+          split at htr
+          · simp only [Option.some.injEq, Prod.mk.injEq] at htr
+            rw [← htr.2]; exact h3n
+          · simp only [Bool.not_true, Bool.false_eq_true, if_false] at htr
+            split at htr
+            · simp at htr
+            · simp only [Option.some.injEq, Prod.mk.injEq] at htr
+              rw [← htr.2]
+              exact Req.H1.HeaderMap.get_del_none _ _ _ h3n
+
+/-! ### malformed classes are rejected -/
+
+/-- Two Transfer-Encoding field lines (or any number other than one) on HTTP/1.1: rejected. -/
+theorem reject_te_not_single {major minor : Nat} {h : HeaderMap} {raw : List Bytes}
+    (hget : HeaderMap.get h kTransferEncoding = some raw) (hv : major > 1 ∨ (major = 1 ∧ minor ≥ 1))
+    (hlen : raw.length ≠ 1) : parseTransferEncoding major minor h = none := by
+  unfold parseTransferEncoding
+  simp only [hget]
+  have : (!(decide (major > 1) || (decide (major = 1) && decide (minor ≥ 1)))) = false := by
+    rcases hv with h1 | ⟨h1, h2⟩ <;> simp [*]
+  simp only [this, Bool.false_eq_true, if_false]
+  match raw, hlen with
+  | [], _ => rfl
+  | [_], hl => simp at hl
+  | _ :: _ :: _, _ => rfl
+
+/-- A Transfer-Encoding other than (case-insensitive) `chunked`: rejected. -/
+theorem reject_te_unsupported {major minor : Nat} {h : HeaderMap} {v : Bytes}
+    (hget : HeaderMap.get h kTransferEncoding = some [v]) (hv : major > 1 ∨ (major = 1 ∧ minor ≥ 1))
+    (hne : Req.Ascii.lower v ≠ vChunked) : parseTransferEncoding major minor h = none := by
+  unfold parseTransferEncoding
+  simp only [hget]
+  have : (!(decide (major > 1) || (decide (major = 1) && decide (minor ≥ 1)))) = false := by
+    rcases hv with h1 | ⟨h1, h2⟩ <;> simp [*]
+  simp only [this, Bool.false_eq_true, if_false]
+  have : (Req.Ascii.lower v == vChunked) = false := by simpa using hne
+  simp [this]
+
+/-- Content-Length values that disagree (after trimming): rejected, whatever the method. -/
+theorem reject_cl_disagree {code : Nat} {isHead chunked : Bool} {h : HeaderMap}
+    {a b : Bytes} {more : List Bytes}
+    (hget : HeaderMap.get h kContentLength = some (a :: b :: more))
+    (hne : trimString b ≠ trimString a) : fixLength code isHead h chunked = none := by
+  unfold fixLength
+  simp only [hget]
+  have : ((a :: b :: more).all fun c => trimString c == trimString a) = false := by
+    simp only [List.all_cons, beq_self_eq_true, Bool.true_and]
+    have : (trimString b == trimString a) = false := by simpa using hne
+    simp [this]
+  simp [this]
+
+/-- A Content-Length that is not a plain decimal number below 2^63: rejected. -/
+theorem reject_cl_invalid {code : Nat} {isHead chunked : Bool} {h : HeaderMap} {v : Bytes}
+    (hget : HeaderMap.get h kContentLength = some [v])
+    (hbad : parseContentLength1 v = none) : fixLength code isHead h chunked = none := by
+  unfold fixLength
+  simp [hget, hbad]
+
+/-- An empty chunk-size line (also with only an extension or blanks) is an error, not a last
+chunk — the repaired behaviour; `parseHexUintLenient` is the unpatched fork. -/
+theorem reject_empty_chunk_size : parseHexUint [] = none ∧ parseHexUintLenient [] = some 0 := by
+  decide
+
+/-- Witness of the known finding (DESIGN section 5 row 14): `5 CRLF hello CRLF CRLF CRLF`. -/
+example : decodeChunked 4096 [53, 13, 10, 104, 101, 108, 108, 111, 13, 10, 13, 10, 13, 10] =
+    ([104, 101, 108, 108, 111], none) := by decide
+
+/-- A status line without a three-digit code, a header line without colon, a header block
+starting with a blank, a control byte in a value: rejected. -/
+example : parseResponse false 4096 [72,84,84,80,47,49,46,49,32,50,48,32,79,75,13,10,13,10] = .reject := by
+  decide
+example : readMIMEHeader [88, 13, 10, 13, 10] = none := by decide
+example : readMIMEHeader [32, 88, 58, 49, 13, 10, 13, 10] = none := by decide
+example : readMIMEHeader [88, 58, 1, 13, 10, 13, 10] = none := by decide
+
+end Req.Props.C04
